@@ -68,7 +68,8 @@ fn decode(ctl: &[u8]) -> Graph {
         for _ in 0..k {
             let j = c.below(n);
             let form = c.below(7) as u8;
-            let allowed = rank[j] < rank[i] || c.chance(12);
+            // edges against the rank make cycles: more often between functions (legal) than through constants (errors)
+            let allowed = rank[j] < rank[i] || c.chance(if !items[i].is_const && !items[j].is_const { 45 } else { 10 });
             if allowed && !(items[i].refs.iter().any(|(x, _)| *x == j)) {
                 items[i].refs.push((j, form));
             }
@@ -83,10 +84,15 @@ fn decode(ctl: &[u8]) -> Graph {
             };
         }
     }
-    if c.chance(25) {
+    if c.chance(70) {
         let k = c.below(n);
         items[k].uses_context = true;
         items[k].ctx_form = c.below(5) as u8;
+        if c.chance(60) {
+            let k2 = c.below(n);
+            items[k2].uses_context = true;
+            items[k2].ctx_form = c.below(5) as u8;
+        }
     }
     let mut order: Vec<usize> = (0..n).collect();
     for i in 0..n.saturating_sub(1) {
@@ -151,6 +157,9 @@ fn render(g: &Graph) -> Vec<(String, String)> {
 /// `vals`: the model's values, for the test blocks (accepted graphs only)
 fn render_with(g: &Graph, vals: Option<&BTreeMap<usize, i64>>) -> Vec<(String, String)> {
     let mut files: Vec<String> = vec![String::new(); g.n_modules];
+    // helper functions (read_K.., call_g..) stand before the items, so that the last declaration of a
+    // module can be a constant
+    let mut helpers: Vec<String> = vec![String::new(); g.n_modules];
     let mut imports: Vec<BTreeSet<String>> = vec![BTreeSet::new(); g.n_modules];
     for &i in &g.order {
         let it = &g.items[i];
@@ -186,16 +195,17 @@ fn render_with(g: &Graph, vals: Option<&BTreeMap<usize, i64>>) -> Vec<(String, S
         }
         let sum = if terms.is_empty() { "0".to_string() } else { terms.join(" + ") };
         let f = &mut files[m];
+        let hf = &mut helpers[m];
         if it.is_const {
             let conf = if m == 0 { "Conf" } else { "pkg.Conf" };
             match it.const_kind {
                 1 => {
                     let _ = writeln!(f, "const {}: {conf} = {{ {} {conf} {{ name: \"c{}\", n: e({}) + {} }} }};", name(g, i), pre.join(" "), i, i + 1, sum);
-                    let _ = writeln!(f, "fn read_{}() -> i32 {{ let c = {}; if c.name == \"c{}\" {{ c.n }} else {{ -1 }} }}", name(g, i), name(g, i), i);
+                    let _ = writeln!(hf, "fn read_{}() -> i32 {{ let c = {}; if c.name == \"c{}\" {{ c.n }} else {{ -1 }} }}", name(g, i), name(g, i), i);
                 }
                 2 => {
                     let _ = writeln!(f, "const {}: () = {{ {} let t = e({}) + {}; }};", name(g, i), pre.join(" "), i + 1, sum);
-                    let _ = writeln!(f, "fn read_{}() -> i32 {{ {}; 0 }}", name(g, i), name(g, i));
+                    let _ = writeln!(hf, "fn read_{}() -> i32 {{ {}; 0 }}", name(g, i), name(g, i));
                 }
                 _ => {
                     if pre.is_empty() {
@@ -203,12 +213,12 @@ fn render_with(g: &Graph, vals: Option<&BTreeMap<usize, i64>>) -> Vec<(String, S
                     } else {
                         let _ = writeln!(f, "const {}: i32 = {{ {} e({}) + {} }};", name(g, i), pre.join(" "), i + 1, sum);
                     }
-                    let _ = writeln!(f, "fn read_{}() -> i32 {{ {} }}", name(g, i), name(g, i));
+                    let _ = writeln!(hf, "fn read_{}() -> i32 {{ {} }}", name(g, i), name(g, i));
                 }
             }
         } else {
             let _ = writeln!(f, "fn {}(d: i32) -> i32 {{ if d <= 0 {{ return {}; }} {} {} + {} }}", name(g, i), 1000 * (i + 1), pre.join(" "), 1000 * (i + 1), sum);
-            let _ = writeln!(f, "fn call_{}() -> i32 {{ {}(2) }}", name(g, i), name(g, i));
+            let _ = writeln!(hf, "fn call_{}() -> i32 {{ {}(2) }}", name(g, i), name(g, i));
         }
     }
     let mut out = Vec::new();
@@ -223,7 +233,7 @@ fn render_with(g: &Graph, vals: Option<&BTreeMap<usize, i64>>) -> Vec<(String, S
         } else {
             text.push_str("import pkg.idf;\n");
         }
-        text.push_str(&files[m]);
+        text.push_str(&helpers[m]);
         for (tm, item) in &g.tests {
             if *tm == m {
                 let want = vals.and_then(|v| v.get(item).copied()).unwrap_or(0);
@@ -231,6 +241,7 @@ fn render_with(g: &Graph, vals: Option<&BTreeMap<usize, i64>>) -> Vec<(String, S
                 let _ = writeln!(text, "test tm{m} {{ if {f}() == {want} {{ accept }} else {{ reject }} }}");
             }
         }
+        text.push_str(&files[m]);
         out.push((if m == 0 { "pkg".to_string() } else { format!("m{m}") }, text));
     }
     out
